@@ -102,9 +102,10 @@ func genCase(t *rapid.T) Case {
 		m.routerUp[x] = false
 	}
 	c.Sched = Sched{
-		Seed:     rapid.Uint64().Draw(t, "seed"),
-		MaxDelay: rapid.SampledFrom([]int{0, 2, 20, 150, 600}).Draw(t, "maxDelay"),
-		DropPct:  rapid.SampledFrom([]int{0, 0, 30, 60}).Draw(t, "drop"),
+		Seed:      rapid.Uint64().Draw(t, "seed"),
+		MaxDelay:  rapid.SampledFrom([]int{0, 2, 20, 150, 600}).Draw(t, "maxDelay"),
+		DropPct:   rapid.SampledFrom([]int{0, 0, 30, 60}).Draw(t, "drop"),
+		FetchDrop: rapid.SampledFrom([]int{0, 0, 0, 25, 50}).Draw(t, "fetchDrop"),
 	}
 	c.Chaos = rapid.SampledFrom([]int{0, 0, 10, maxChaos}).Draw(t, "chaos0")
 	c.Twin = rapid.IntRange(0, 3).Draw(t, "twin") == 0
